@@ -36,7 +36,6 @@ import (
 
 	"github.com/invopop/gobl"
 	"github.com/invopop/gobl/bill"
-	"github.com/invopop/gobl/dsig"
 	"github.com/invopop/gobl/schema"
 	"github.com/invopop/yaml"
 
@@ -58,6 +57,8 @@ type tcase struct {
 	Args    []string `json:"args,omitempty"`
 	Expect  string   `json:"expect,omitempty"`
 	Mention string   `json:"mention,omitempty"`
+	// "" = gobl.Parse; "unmarshal" = json.Unmarshal into a new(gobl.Envelope) (families.go)
+	Entry string `json:"entry,omitempty"`
 
 	gen func() []byte // lazy input (the text is produced in the worker and kept only when reported)
 }
@@ -75,7 +76,7 @@ type panicRec struct {
 	stage, site, msg string
 }
 
-var key = dsig.NewES256Key()
+var key = mustKey(harnessKeyJSON) // a fixed test key: signed inputs verify again on replay (keys.go)
 
 const caseTimeout = 20 * time.Second
 
@@ -152,6 +153,12 @@ const fatalSelfSchema = "c14.fatal:schema.(*Object).UnmarshalJSON"
 
 // pipeline runs every stage on one input; every stage is protected on its own.
 func pipeline(data []byte) (panics []panicRec, issues []errIssue, reached string) {
+	return pipelineEntry(data, "")
+}
+
+// pipelineEntry: entry "" reads the input with gobl.Parse, "unmarshal" with
+// json.Unmarshal into a new(gobl.Envelope) (envelope inputs only).
+func pipelineEntry(data []byte, entry string) (panics []panicRec, issues []errIssue, reached string) {
 	run := func(stage string, f func() error) {
 		var err error
 		site, msg, _ := core.ProtectSite(func() { err = f() })
@@ -168,6 +175,14 @@ func pipeline(data []byte) (panics []panicRec, issues []errIssue, reached string
 	reached = "parse-error"
 	run("parse", func() error {
 		var err error
+		if entry == "unmarshal" {
+			env := new(gobl.Envelope)
+			if err = json.Unmarshal(data, env); err != nil {
+				return nil // an ordinary encoding/json error
+			}
+			obj = env
+			return nil
+		}
 		obj, err = gobl.Parse(data)
 		return err
 	})
@@ -407,12 +422,12 @@ func runAll(cases []tcase, each func(result)) {
 			s.idx.Store(int64(i))
 			t := cases[i]
 			t.materialise()
-			if t.Doc == "" && t.Stream != "bytes" {
+			if t.Doc == "" && t.Stream != "bytes" && t.Stream != "bulk-inproc" && t.Stream != "cli-inproc" {
 				continue // mutation not applicable
 			}
 			s.start.Store(time.Now().UnixNano())
 			recordInflight(w, t)
-			p, is, reached := pipeline([]byte(t.Doc))
+			p, is, reached := runCase(t)
 			s.start.Store(0)
 			mu.Lock()
 			if !hungIdx[i] {
@@ -578,6 +593,9 @@ func Run(c *core.Ctx) int {
 		fmt.Fprintln(os.Stderr, "c14:", err)
 		return 2
 	}
+	if bf := os.Getenv("C14_BATCH"); bf != "" {
+		return runBatch(bf, os.Getenv("C14_BATCH_OUT")) // a batch of cases that recover cannot protect (isolate.go)
+	}
 	loadLegacyMembers(c.Repo)
 	c.Note("legacy members found in UnmarshalJSON methods: %v", LegacyMembers)
 	goblBin, err := clibin.Build(c)
@@ -590,12 +608,13 @@ func Run(c *core.Ctx) int {
 		var t tcase
 		b, _ := os.ReadFile(one)
 		_ = json.Unmarshal(b, &t)
-		pipeline([]byte(t.Doc))
+		runCase(t)
 		return 0
 	}
 	if code, ok := supervise(c); ok {
 		return code
 	}
+	t0 := time.Now()
 	var rc tcase
 	if c.ReplayCase(&rc) {
 		replay(c, rc, goblBin)
@@ -683,6 +702,14 @@ func Run(c *core.Ctx) int {
 		}
 	}
 
+	// signed bases, sigpayload, schema-add, far duplicates, envelope-level mutations through
+	// json.Unmarshal (families.go); nil / zero arguments (nilargs.go); the CLI layer in-process (clihook.go)
+	newCases, bases, _ := newFamilyCases(c, exs)
+	cases = append(cases, newCases...)
+	cases = append(cases, nilArgCases(c, exs, bases)...)
+	cases = append(cases, cliInprocCases(c, exs, bases)...)
+
+	c.Note("cases built after %.1fs: %d", time.Since(t0).Seconds(), len(cases))
 	// in-process
 	seenSite := map[string]bool{}
 	seenIssue := map[string]bool{}
@@ -691,9 +718,11 @@ func Run(c *core.Ctx) int {
 	var quiet []tcase
 	var fatalInputs []tcase
 	nEx := 0
-	runAll(cases, func(r result) {
-		nontrivial := r.reached == "calculated" || r.reached == "valid" || len(r.panics) > 0
-		c.Eval(r.t.Stream+"|"+r.t.Name+"|"+r.t.Path+"|"+r.t.Kind+"|"+fmt.Sprint(len(r.t.Doc)), nontrivial)
+	seenCause := map[string]bool{}
+	causes := map[string]int{}
+	each := func(r result) {
+		nontrivial := r.reached == "calculated" || r.reached == "valid" || len(r.panics) > 0 || apiLevel(r.t)
+		c.Eval(r.t.Stream+"|"+r.t.Name+"|"+r.t.Path+"|"+r.t.Kind+"|"+r.t.Entry+"|"+fmt.Sprint(len(r.t.Doc)), nontrivial)
 		c.Count("stream."+r.t.Stream, 1)
 		c.Count("reached."+r.reached, 1)
 		if r.t.Kind != "" {
@@ -713,6 +742,12 @@ func Run(c *core.Ctx) int {
 			c.Sample(map[string]any{"example": r.t.Name, "path": r.t.Path, "kind": r.t.Kind, "reached": r.reached, "panics": len(r.panics)})
 		}
 		for _, p := range r.panics {
+			if p.stage == outsideStage {
+				// a nil pointer handed in by the calling program as the document / a helper's argument:
+				// outside the property's quantifier (nilargs.go) - counted, not a violation
+				c.Count(outsideStage+":"+p.site, 1)
+				continue
+			}
 			cl := classifier(p.stage, p.site)
 			c.Count("panic-site:"+p.stage+":"+p.site, 1)
 			t := r.t
@@ -726,7 +761,16 @@ func Run(c *core.Ctx) int {
 			}
 			if !seenSite[cl] {
 				seenSite[cl] = true
-				c.Fail(cl, fmt.Sprintf("panic in stage %s at %s: %s (input: %s %s %s)", p.stage, p.site, p.msg, r.t.Name, r.t.Path, r.t.Kind), t)
+				seenCause[cl+"|"+causeKey(r.t)] = true
+				what := fmt.Sprintf("panic in stage %s at %s: %s (input: %s %s %s)", p.stage, p.site, p.msg, r.t.Name, r.t.Path, r.t.Kind)
+				furtherWitness(c, cl, what, t, false) // beyond the five violations core records: a replay file all the same
+				c.Fail(cl, what, t)
+			} else if ck := cl + "|" + causeKey(r.t); !seenCause[ck] && causes[cl] < 12 {
+				// the same site reached by another family / kind of mutation / place: possibly another
+				// defect behind the same function - a replay file, not a further violation
+				seenCause[ck] = true
+				causes[cl]++
+				furtherWitness(c, cl, fmt.Sprintf("panic in stage %s at %s again, by another kind of input: %s (input: %s %s %s)", p.stage, p.site, p.msg, r.t.Name, r.t.Path, r.t.Kind), t, true)
 			}
 		}
 		for _, is := range r.issues {
@@ -743,10 +787,14 @@ func Run(c *core.Ctx) int {
 				seenIssue[cl] = true
 				t := r.t
 				t.Stage = is.stage
-				c.Fail(cl, fmt.Sprintf("error returned by stage %s is not structured as documented: %s (input: %s %s %s)", is.stage, is.what, r.t.Name, r.t.Path, r.t.Kind), t)
+				what := fmt.Sprintf("error returned by stage %s is not structured as documented: %s (input: %s %s %s)", is.stage, is.what, r.t.Name, r.t.Path, r.t.Kind)
+				furtherWitness(c, cl, what, t, false)
+				c.Fail(cl, what, t)
 			}
 		}
-		if len(r.panics) > 0 && len(panicking) < 4000 {
+		if apiLevel(r.t) {
+			// not a document: nothing to hand to the command line below
+		} else if len(r.panics) > 0 && len(panicking) < 4000 {
 			panicking = append(panicking, r.t)
 		} else if len(r.panics) == 0 && r.t.Stream != "bytes" && len(quiet) < 4000 {
 			quiet = append(quiet, r.t)
@@ -754,17 +802,33 @@ func Run(c *core.Ctx) int {
 		if r.t.Stream == "example" {
 			nEx++
 		}
-	})
+	}
+	var inproc, isolated []tcase
+	for _, t := range cases {
+		if t.Stream == "bulk-inproc" {
+			isolated = append(isolated, t)
+		} else {
+			inproc = append(inproc, t)
+		}
+	}
+	runAll(inproc, each)
+	c.Note("recoverable in-process cases done after %.1fs", time.Since(t0).Seconds())
+	runIsolated(isolated, each) // cli.Bulk starts goroutines: run in child processes (isolate.go)
 
+	c.Note("in-process run done after %.1fs", time.Since(t0).Seconds())
+	noteStreamTimes(c)
 	// the smallest such input, always
 	fatalInputs = append(fatalInputs, tcase{Stream: "json", Doc: `{"$schema":"` + selfSchemaID + `"}`})
 	external(c, goblBin, exs, ids, panicking, quiet, fatalInputs)
+	c.Note("command line and bulk sample done after %.1fs", time.Since(t0).Seconds())
+	externalExtra(c, goblBin, exs, bases) // request-level families of the bulk endpoint and the command line (bulkreq.go)
+	c.Note("request-level families done after %.1fs", time.Since(t0).Seconds())
 
 	extra := map[string]any{"exhaustive": false, "mutation_space": len(space), "documented_error_keys": len(documentedKeys), "call_sites_hit": siteExamples}
 	if exhaustive {
 		extra["exhaustive_single_mutations"] = true
 	}
-	return c.Finish("one evaluation = one input through all thirteen in-process stages (or one CLI / bulk run); inputs: random bytes, random JSON over GOBL member names and schemas, every example, single structure-aware mutations of every example (path x kind; complete enumeration in the thorough tier, sample in the quick tier), double mutations (thorough); non-trivial = distinct input that reaches calculation or panics",
+	return c.Finish("one evaluation = one input through all thirteen in-process stages (or one CLI / bulk run); inputs: random bytes, random JSON over GOBL member names and schemas, every example, single structure-aware mutations of every example (path x kind; complete enumeration in the thorough tier, sample in the quick tier), double mutations (thorough); signed bases (every example envelope signed with the harness key, some by two keys, some with a header carrying every member of its schema) under the same mutation space; sigpayload: the header a signature signs mutated and signed again; schema-add / schema-add2: every property the published schema declares and an object lacks added with candidate values by type, singly and in pairs; copies of array elements at the other end of the array; every mutation outside doc also through json.Unmarshal into an Envelope and through internal/cli in-process; nil / zero arguments of the envelope API (a panic on a nil pointer handed in by the calling program as the document or a helper's argument or receiver is OUTSIDE the property's quantifier: counted under outside-quantifier:nil-argument:<site>, no violation); internal/cli in-process (package verifhook) with nil / zero / foreign keys and zero options; cli.Bulk in-process (in child processes) and POST /bulk over request-level mutations of every action and over request streams cut off at every offset (the answer has to end, with exactly one final response, the last one); command lines lacking flags and with key files that are no key; non-trivial = distinct input that reaches calculation or panics, or a call of the API",
 		extra)
 }
 
@@ -1028,6 +1092,10 @@ func cliHome(goblBin string) (home string, err error) {
 		_ = os.RemoveAll(home)
 		return "", fmt.Errorf("keygen: %s", r.Err)
 	}
+	if err := installHarnessKey(home); err != nil { // $KEY / $PUB are the key the signed bases were signed with
+		_ = os.RemoveAll(home)
+		return "", err
+	}
 	return home, nil
 }
 
@@ -1040,6 +1108,11 @@ func cliArgs(home string, args []string) []string {
 			a = filepath.Join(home, "key.jwk")
 		case "$PUB":
 			a = filepath.Join(home, "key.pub.jwk")
+		}
+		if strings.HasPrefix(a, "$FILE:") { // a file of the scratch home directory with this content
+			f := filepath.Join(home, fmt.Sprintf("arg%d.file", i))
+			_ = os.WriteFile(f, []byte(strings.TrimPrefix(a, "$FILE:")), 0o644)
+			a = f
 		}
 		out[i] = a
 	}
@@ -1254,12 +1327,27 @@ func external(c *core.Ctx, goblBin string, exs []example, ids []string, panickin
 }
 
 func replay(c *core.Ctx, t tcase, goblBin string) {
+	if t.Via == "bulk-stream" {
+		replayBulkStream(c, t, goblBin)
+		return
+	}
 	if t.Via == "" {
-		ps, is, reached := pipeline([]byte(t.Doc))
+		var ps []panicRec
+		var is []errIssue
+		var reached string
+		if t.Stream == "bulk-inproc" {
+			// recover cannot protect this one: in a child process (isolate.go)
+			runIsolated([]tcase{t}, func(r result) { ps, is, reached = r.panics, r.issues, r.reached })
+		} else {
+			ps, is, reached = runCase(t)
+		}
 		c.Eval("replay", true)
 		fmt.Fprintf(os.Stderr, "replay: reached %s, %d panics, %d error issues\n", reached, len(ps), len(is))
 		for _, p := range ps {
 			fmt.Fprintf(os.Stderr, "  panic stage=%s site=%s: %s\n", p.stage, p.site, p.msg)
+			if p.stage == outsideStage {
+				continue // outside the property's quantifier (nilargs.go)
+			}
 			c.Fail(classifier(p.stage, p.site), fmt.Sprintf("panic in stage %s at %s: %s", p.stage, p.site, p.msg), t)
 		}
 		for _, i := range is {
